@@ -583,6 +583,9 @@ func c03Constants(r *fw.Rec) {
 		def(constant.NewZeroInitializer(types.NewArray(3, T)))
 		def(constant.NewArray(types.NewArray(2, types.I32), ci(types.I32, 1), ci(types.I32, 2)))
 		def(constant.NewCharArrayFromString("hi\x00\xff\"\\"))
+		def(constant.NewCharArrayFromString("héllo, wörld 世界 \u00a0\U0001F600")) // multi-byte UTF-8: the length is in bytes
+		def(constant.NewCharArrayFromString(""))
+		def(constant.NewCharArray([]byte{0xC3, 0x28, 0xE2, 0x82})) // invalid UTF-8
 		def(constant.NewStruct(types.NewStruct(types.I32, types.Float), ci(types.I32, 1), constant.NewFloat(types.Float, 2)))
 		def(constant.NewStruct(T.(*types.StructType), ci(types.I32, 1), constant.NewNull(types.I8Ptr)))
 		// packed structs: literal, identified, empty, and nested in other aggregates
